@@ -2,6 +2,7 @@
 P8 clone remap, A1 slots-never-shrink."""
 from .engine import rule, Result
 from .mir import *
+from . import pathsem
 
 POP = ('alloc::collections::VecDeque::<T, A>::pop_front', 'alloc::collections::VecDeque::<T, A>::pop_back')
 PUSHQ = ('alloc::collections::VecDeque::<T, A>::push_back', 'alloc::collections::VecDeque::<T, A>::push_front')
@@ -52,90 +53,89 @@ def p1_pop_must_use(prog):
 
 @rule('P2', props=['C13', 'C02', 'C06'], floor=1)
 def p2_deactivate_then_free(prog):
-    """Every path from a Slot::deactivate call to return passes through a push onto the same
-    allocator's free list, and the pushed value is the index that selected the slot."""
+    """Every returning path of a function that calls Slot::deactivate also pushes onto the same allocator's
+    free list (in either order), and the pushed value is the index that selected the deactivated slot."""
     r = Result()
     for f in prog.fns.values():
-        body = f.body
-        for b, t in body.calls(lambda c: c['path'].endswith('::Slot::<R>::deactivate')):
-            r.inst('%s: deactivate at bb%d' % (f.path, b))
-            pushes = [(pb, pt) for pb, pt in body.calls(lambda c: c['path'] in PUSHQ)
-                      if (receiver_name(prog, body, pt['args'][0]) or '').endswith('.free')]
-            pblocks = [pb for pb, _ in pushes]
-            if not body.must_pass(t['target'], pblocks, body.return_blocks()) if t['target'] is not None else True:
-                r.viol('P2', '%s/no-push' % f.path, f.loc(t['ln']),
-                       'a path from Slot::deactivate to return does not push the index onto the free list (slot lost)')
+        if f.kind == 'Closure' or not any(True for _ in f.body.calls(lambda c: c['path'].endswith('::Slot::<R>::deactivate'))):
+            continue
+        E = pathsem.analyse(prog, f)
+        r.inst('%s: deactivate on %d path(s)' % (f.path, len([p for p in E.paths if p.calls(lambda e: e['name'] == 'deactivate')])))
+        if E.truncated:
+            r.viol('P2', '%s/not-analysable' % f.path, f.loc(), 'path enumeration cut off')
+            continue
+        done = set()
+        for p in E.paths:
+            if p.ended != 'return':
                 continue
-            # index agreement: slot came from get_unchecked_mut(slots, I); push value must be I
-            slot_acc = normalize_access(access_of_place(body, op_place(t['args'][0])))
-            idx_accs = set()
-            for gb, gt in body.calls(lambda c: c['name'] in ('get_unchecked_mut', 'get_mut', 'index_mut')):
-                if len(gt['args']) >= 2:
-                    p = op_place(gt['args'][1])
-                    if p:
-                        idx_accs.add(normalize_access(access_of_place(body, p)).key())
-            for pb, pt in pushes:
-                p = op_place(pt['args'][1])
-                a = normalize_access(access_of_place(body, p)).key() if p else None
-                if a not in idx_accs:
-                    r.viol('P2', '%s/wrong-index' % f.path, f.loc(pt['ln']),
-                           'value pushed onto the free list is not the index used to select the deactivated slot')
+            for d in p.calls(lambda e: e['path'].endswith('::Slot::<R>::deactivate')):
+                slot = d['args'][0]
+                idx = [t[2][1] for t in pathsem.subterms(slot) if t[0] == 'call' and t[1].rsplit('::', 1)[-1] in ('get_unchecked_mut', 'get_mut', 'index_mut') and len(t[2]) >= 2]
+                pushes = [e for e in p.calls(lambda e: e['path'] in PUSHQ) if pathsem.tstr(e['args'][0]).endswith('self.%d' % adt_field_index(prog, 'entity::allocator::Allocator', 'free'))]
+                if not pushes and 'np' not in done:
+                    done.add('np')
+                    r.viol('P2', '%s/no-push' % f.path, f.loc(d['ln']),
+                           'a path from Slot::deactivate to return does not push the index onto the free list (slot lost)')
+                for e in pushes:
+                    if e['args'][1] not in idx and 'wi' not in done:
+                        done.add('wi')
+                        r.viol('P2', '%s/wrong-index' % f.path, f.loc(e['ln']),
+                               'value pushed onto the free list (%s) is not the index used to select the deactivated slot (%s)' % (pathsem.tstr(e['args'][1]), ', '.join(pathsem.tstr(x) for x in idx)))
     return r
 
 
 @rule('G1', props=['C02', 'C13'], floor=2)
 def g1_generation_guard(prog):
-    """Allocator::get / is_active: every exit that reports the identifier as live is dominated by the
-    true edge of `slot.generation == identifier.generation`."""
+    """Allocator::get / is_active: on every path that reports the identifier as live (get: anything but a
+    literal None; is_active: true) the path conditions contain `slot.generation == identifier.generation`
+    for the slot selected by identifier.index (whatever the syntactic form: if/else, match guard, `?`,
+    let-else, Option::filter/and_then/map_or closures, negated or De Morgan'd conditions)."""
     r = Result()
     gen_slot = adt_field_index(prog, 'Slot', 'generation')
     gen_id = adt_field_index(prog, 'entity::identifier::Identifier', 'generation')
+    idx_id = adt_field_index(prog, 'entity::identifier::Identifier', 'index')
     for name in ('get', 'is_active'):
         cands = [f for f in prog.fns.values() if f.name == name and f.path.startswith('entity::allocator::Allocator')]
         if len(cands) != 1:
             r.viol('G1', 'missing/' + name, '-', 'anchor Allocator::%s not found (%d candidates)' % (name, len(cands)))
             continue
         f = cands[0]
-        body = f.body
-        # find Eq comparisons between a Slot.generation read and identifier.generation read
-        guards = []
-        for b, i, s in body.stmts():
-            if s['k'] == 'assign' and s['rv']['k'] == 'binop' and s['rv']['op'] == 'Eq':
-                sides = [last_field(body, o) for o in (s['rv']['a'], s['rv']['b'])]
-                slot_side = [x for x in sides if x and x[0].endswith('::Slot') and x[1] == gen_slot]
-                id_side = [x for x in sides if x and x[0].endswith('entity::identifier::Identifier') and x[1] == gen_id]
-                if slot_side and id_side:
-                    # the switch on this bool
-                    t = body.term(b)
-                    cond = s['place']['l']
-                    # find the switch that tests cond (maybe in same block)
-                    for sb in range(body.n):
-                        st = body.term(sb)
-                        if st['k'] == 'switch' and op_local(st['discr']) == cond:
-                            false_t = st['targets'][st['values'].index(0)] if 0 in st['values'] else None
-                            true_t = st['otherwise'] if false_t is not None else None
-                            guards.append((sb, true_t, false_t))
-        r.inst('%s: %d generation guards' % (f.path, len(guards)))
+        E = pathsem.analyse(prog, f)
+        if E.truncated or not E.paths:
+            r.viol('G1', '%s/not-analysable' % f.path, f.loc(), 'path enumeration of %s was cut off' % f.path)
+            continue
+
+        def is_guard(a):
+            if not (a[0] == 'bin' and a[1] == 'Eq'):
+                return False
+            for x, y in ((a[2], a[3]), (a[3], a[2])):
+                if pathsem.is_field_of(x, 'Slot', gen_slot) and pathsem.is_field_of(y, 'entity::identifier::Identifier', gen_id) \
+                        and pathsem.mentions(x, lambda t: pathsem.is_field_of(t, 'entity::identifier::Identifier', idx_id)):
+                    return True
+            return False
+        live = []
+        guards = 0
+        for p in E.paths:
+            if p.ended != 'return':
+                continue
+            guards += len([1 for a, v in p.conds if is_guard(a)])
+            if name == 'get' and p.ret == pathsem.NONE:
+                continue
+            if name == 'is_active' and p.ret == pathsem.FALSE:
+                continue
+            live.append(p)
+        r.inst('%s: %d paths, %d report live' % (f.path, len(E.paths), len(live)))
         if not guards:
             r.viol('G1', '%s/no-guard' % f.path, f.loc(), 'no comparison of slot.generation with identifier.generation found')
             continue
-        # "live" exits: assignments to _0 of something other than None/false
-        live_blocks = []
-        for b, i, s in body.stmts():
-            if s['k'] == 'assign' and s['place']['l'] == 0 and not s['place']['p']:
-                rv = s['rv']
-                if rv['k'] == 'agg' and rv.get('vname') == 'None':
-                    continue
-                if rv['k'] == 'use' and 'const' in rv['op'] and rv['op']['const'].get('val') == 0:
-                    continue
-                live_blocks.append(b)
-        if not live_blocks:
+        if not live:
             r.viol('G1', '%s/no-live-exit' % f.path, f.loc(), 'no exit reporting the identifier as live was found (rule cannot anchor)')
-        for lb in live_blocks:
-            ok = any(tt is not None and body.edge_dominates((sb, tt), lb) for sb, tt, ft in guards)
-            if not ok:
+        for p in live:
+            if not p.cond_true(is_guard):
                 r.viol('G1', '%s/unguarded-live-exit' % f.path, f.loc(),
-                       'an exit reporting the identifier as live (bb%d) is not dominated by the true edge of the generation comparison: stale identifiers would resolve' % lb)
+                       'a path reports the identifier as live (returns %s) without having established slot.generation == identifier.generation for the slot at identifier.index: stale identifiers would resolve'
+                       % pathsem.tstr(p.ret), {'conds': [(pathsem.tstr(a), str(v)) for a, v in p.conds]})
+                break
     return r
 
 
